@@ -9,7 +9,9 @@ S1  OpusProps.C12: reset_eq_init / reset_indistinguishable / dec_reset_eq_init o
     no_self_pointers / get_size_covers_state / model_fields_cover_struct / init_matches_code on the
     regenerated description.
 S3  harness/c12_state.c `tie`: members after init / after OPUS_RESET_STATE (states reached by random histories and
-    poisoned states) / after every setting request, compared exactly with the Lean model (suite `misc`).
+    poisoned states) / after every setting request / after the multistream, projection and multistream-decoder reset
+    (per-stream member lists), compared exactly with the Lean model; members before and after real decode calls checked
+    against the structural claims of the decode footprint (suite `misc`).
 S4  harness/c12_twin.c: twin objects — memcpy clone vs. original, reset vs. new object with the settings replayed,
     same history twice (zero-filled vs 0x5A-poisoned heap and stack, decoy objects alive) — for encoder, decoder, multistream
     encoder/decoder, projection encoder/decoder, repacketizer, at every OPUS_VERIF_ARCH_CAP level; byte equality of
@@ -30,6 +32,7 @@ SOURCES = ['src/opus_encoder.c', 'src/opus_decoder.c', 'celt/celt_encoder.c', 'c
 REQUIRED_THEOREMS = ['OpusProps.C12.reset_eq_init', 'OpusProps.C12.reset_indistinguishable',
                      'OpusProps.C12.dec_reset_eq_init', 'OpusProps.C12.dec_reset_indistinguishable',
                      'OpusProps.C12.ms_reset_eq_init', 'OpusProps.C12.ms_dec_reset_eq_init',
+                     'OpusProps.C12.reset_eq_init_by_requests', 'OpusProps.C12.decode_footprint_check_sound',
                      'OpusProps.C12.no_self_pointers', 'OpusProps.C12.get_size_covers_state',
                      'OpusProps.C12.model_fields_cover_struct', 'OpusProps.C12.init_matches_code']
 UNPROVED = [
@@ -37,7 +40,11 @@ UNPROVED = [
     'writing is a hand transcription (OpusModel.ResetState.View / DecView, encodeStep / decodeStep); it is validated by the '
     'attribution and poke-sensitivity searches (one member changed at a time), not derived from the C source',
     'multistream / projection encode and decode calls (rate allocation, surround analysis, channel mapping, mixing matrices) '
-    'are not modelled: ms_reset_eq_init is the state form plus per-stream call sequences',
+    'are not modelled: ms_reset_eq_init is the state form plus per-stream call sequences; ten of its MsObsEq conjuncts hold by '
+    'definition of msEncFresh (that the reset leaves those members alone is checked by the `misc msreset` correspondence)',
+    'decodeStep is tied to the code only through its structural claims (suite `misc decstep`: constants never written; what a '
+    'concealment call and a packet call may change in prev_mode / prev_redundancy / DecControl); which members the DSP reads is '
+    'measured by the poke experiment; encodeStep has no such step-level tie (init / reset / every setting request are tied exactly)',
 ]
 RULE = ('twin-object cases drawn from the seed: (object kind, Fs, channels, application / mapping family, scenario) + a random '
         'history of setting requests, getter sweeps, resets and encode/decode calls (float, int16, int24; 2.5-120 ms; tiny '
